@@ -814,6 +814,23 @@ def _r17_8(res, P, cfgname):
                 key = "%s called in %s" % (cp, path)
                 if file.endswith(("integer/src/buffer.rs", "integer/src/memory.rs")):
                     res.ok("R17.8", cfgname, key)
+                    # GlobalAlloc contract: realloc / dealloc must be given the layout the block was allocated
+                    # with, i.e. one computed from the *current* capacity field, not from a requested capacity
+                    if cp.endswith("alloc::realloc") and fn["crate"] == INT and len(t["a"]) >= 2 and "buffer::Buffer" in path \
+                            and len(fn.get("inputs", [])) >= 2 and fn["inputs"][0].replace(" ", "") == "&mutdashu_int::buffer::Buffer":
+                        S = S or sym.Sym(fn)
+                        lay = S.operand(t["a"][1])
+                        uses_field = sym.contains(lay, lambda x: isinstance(x, tuple) and x[0] == "place" and x[1] == ("arg", 1) and ".capacity" in x[2])
+                        uses_param = sym.contains(lay, lambda x: x == ("arg", 2))
+                        k2 = key + "|layout"
+                        n += 1
+                        if cp.endswith("alloc::dealloc") or (uses_field and not uses_param):
+                            if uses_field or not uses_param:
+                                res.ok("R17.8", cfgname, k2, sample=dict(function=path, layout=sym.term_str(lay, 100)))
+                            else:
+                                res.fail("R17.8", cfgname, k2, "%s passes %s a layout that is not computed from the buffer's current capacity" % (path, cp.rsplit("::", 1)[-1]), span_loc(t["sp"]))
+                        else:
+                            res.fail("R17.8", cfgname, k2, "%s passes realloc the layout `%s`: it must be the layout of the existing block (Layout::array(self.capacity)), not one built from the requested capacity — undefined behaviour under the GlobalAlloc contract" % (path, sym.term_str(lay, 90)), span_loc(t["sp"]))
                 else:
                     res.fail("R17.8", cfgname, key, "allocator call %s outside buffer.rs/memory.rs (in %s)" % (cp, path), span_loc(t["sp"]))
             if cp == "dashu_int::buffer::Buffer::deallocate_raw":
